@@ -491,6 +491,11 @@ def predicate(c, s, r):
                             "from the same image is rejected")
                 if vm[1] != 1:
                     return "Mint image: validate_mint accepts the opposite freeze-authority expectation"
+            if kind == 2 and c[1] == 1 and vm and vm[0] != 9:
+                if vm[0] != 0:
+                    return "token Account image accepted by the reference: validate_token with the mint / owner the reference reads is rejected"
+                if vm[1] != 1:
+                    return "token Account image: validate_token accepts another owner / another mint"
         return None
     if kind == 3:
         return None if s == r else "associated token address differs from the reference derivation"
